@@ -40,10 +40,176 @@ const hookPkg = `// Package verifhook is added to a scratch copy of the module b
 package verifhook
 
 import (
+	"math/rand"
+	"os"
 	"runtime"
 	"sync"
 	"sync/atomic"
+	"time"
 )
+
+// ---- seams for the clock and for randomness -------------------------------
+//
+// Every time.Now / Since / Until / Sleep and every package-level math/rand
+// function of the code under test is redirected here (all build flavours).
+// Inactive (seed 0: the library's own tests on the rewritten copy) they are the
+// real thing. Active, the clock is SIMULATED — each reading
+// advances it by a step drawn from the run's seed and the number of readings so
+// far, from nothing to an hour, so that "not yet expired" and "long expired"
+// both happen within one run — and random numbers are a hash of the seed and
+// the number of draws so far: one seed, one execution.
+
+var seamSeed, nowCalls, randCalls uint64
+var clockNs int64
+
+// In a process of the simulator (check.sh exports VERIF_SIM) the seams are
+// active from the very first instruction, so that package-level initialisers
+// of the code under test (var start = time.Now()) are repeatable too.
+func init() {
+	if os.Getenv("VERIF_SIM") != "" {
+		seamSeed = 1
+	}
+}
+
+// SeamReset starts a run: seed != 0 activates the simulated clock and the
+// seeded randomness, 0 switches back to the real ones.
+func SeamReset(seed uint64) {
+	atomic.StoreUint64(&seamSeed, seed)
+	atomic.StoreUint64(&nowCalls, 0)
+	atomic.StoreUint64(&randCalls, 0)
+	atomic.StoreInt64(&clockNs, 0)
+}
+
+// SeamStats reports how often the clock was read and how many random numbers
+// were drawn since SeamReset.
+func SeamStats() (clock, random uint64) {
+	return atomic.LoadUint64(&nowCalls), atomic.LoadUint64(&randCalls)
+}
+
+func mix(a, b uint64) uint64 {
+	x := a ^ (b+0x9e3779b97f4a7c15)*0xbf58476d1ce4e5b9
+	x ^= x >> 30
+	x *= 0xbf58476d1ce4e5b9
+	x ^= x >> 27
+	x *= 0x94d049bb133111eb
+	x ^= x >> 31
+	return x
+}
+
+var clockSteps = [...]int64{0, 1, 50, 1000, 1000, 20000, 1000000, 1000000, 30000000, 1000000000, 60000000000, 3600000000000}
+
+func Now() time.Time {
+	s := atomic.LoadUint64(&seamSeed)
+	if s == 0 {
+		return time.Now()
+	}
+	n := atomic.AddUint64(&nowCalls, 1)
+	c := atomic.AddInt64(&clockNs, clockSteps[mix(s, n)%uint64(len(clockSteps))])
+	return time.Unix(1600000000, 0).Add(time.Duration(c))
+}
+func Since(t time.Time) time.Duration { return Now().Sub(t) }
+func Until(t time.Time) time.Duration { return t.Sub(Now()) }
+func Sleep(d time.Duration) {
+	if atomic.LoadUint64(&seamSeed) == 0 {
+		time.Sleep(d)
+		return
+	}
+	if d > 0 {
+		atomic.AddInt64(&clockNs, int64(d)) // simulated time passes, real time does not
+	}
+}
+
+func rnd() uint64 {
+	s := atomic.LoadUint64(&seamSeed)
+	if s == 0 {
+		return rand.Uint64()
+	}
+	return mix(s^0x5bd1e9955bd1e995, atomic.AddUint64(&randCalls, 1))
+}
+
+func RandUint64() uint64   { return rnd() }
+func RandUint32() uint32   { return uint32(rnd() >> 32) }
+func RandInt63() int64     { return int64(rnd() >> 1) }
+func RandInt31() int32     { return int32(rnd() >> 33) }
+func RandInt() int         { return int(uint(rnd()) >> 1) }
+func RandFloat64() float64 { return float64(rnd()>>11) / (1 << 53) }
+func RandFloat32() float32 { return float32(rnd()>>40) / (1 << 24) }
+func RandSeed(int64)       {}
+func RandInt63n(n int64) int64 {
+	if n <= 0 {
+		panic("invalid argument to Int63n")
+	}
+	return int64(rnd() % uint64(n))
+}
+func RandInt31n(n int32) int32 {
+	if n <= 0 {
+		panic("invalid argument to Int31n")
+	}
+	return int32(rnd() % uint64(n))
+}
+func RandIntn(n int) int {
+	if n <= 0 {
+		panic("invalid argument to Intn")
+	}
+	return int(rnd() % uint64(n))
+}
+func RandPerm(n int) []int {
+	m := make([]int, n)
+	for i := range m {
+		j := int(rnd() % uint64(i+1))
+		m[i] = m[j]
+		m[j] = i
+	}
+	return m
+}
+func RandShuffle(n int, swap func(i, j int)) {
+	if n < 0 {
+		panic("invalid argument to Shuffle")
+	}
+	for i := n - 1; i > 0; i-- {
+		swap(i, int(rnd()%uint64(i+1)))
+	}
+}
+func RandRead(p []byte) (int, error) {
+	for i := range p {
+		p[i] = byte(rnd())
+	}
+	return len(p), nil
+}
+
+// math/rand/v2 spellings
+func RandIntN(n int) int {
+	if n <= 0 {
+		panic("invalid argument to IntN")
+	}
+	return int(rnd() % uint64(n))
+}
+func RandInt64N(n int64) int64 {
+	if n <= 0 {
+		panic("invalid argument to Int64N")
+	}
+	return int64(rnd() % uint64(n))
+}
+func RandInt32N(n int32) int32 {
+	if n <= 0 {
+		panic("invalid argument to Int32N")
+	}
+	return int32(rnd() % uint64(n))
+}
+func RandUint64N(n uint64) uint64 {
+	if n == 0 {
+		panic("invalid argument to Uint64N")
+	}
+	return rnd() % n
+}
+func RandUint32N(n uint32) uint32 {
+	if n == 0 {
+		panic("invalid argument to Uint32N")
+	}
+	return uint32(rnd() % uint64(n))
+}
+func RandInt64() int64 { return int64(rnd() >> 1) }
+func RandInt32() int32 { return int32(rnd() >> 33) }
 
 // Y, when set by the simulator, is a scheduling point: the scheduler may let
 // another task run.
@@ -165,6 +331,156 @@ func (w *WaitGroup) Wait() {
 `
 
 const yieldText = "verifhook.Yield(); "
+
+// seamed: the selectors of package time and of math/rand (v1 and v2, package-
+// level functions only) that are redirected to verifhook.
+var seamedTime = map[string]bool{"Now": true, "Since": true, "Until": true, "Sleep": true}
+var seamedRand = map[string]bool{"Uint64": true, "Uint32": true, "Int63": true, "Int31": true, "Int": true, "Float64": true, "Float32": true, "Seed": true,
+	"Int63n": true, "Int31n": true, "Intn": true, "Perm": true, "Shuffle": true, "Read": true,
+	"IntN": true, "Int64N": true, "Int32N": true, "Uint64N": true, "Uint32N": true, "Int64": true, "Int32": true}
+
+func importName(f *ast.File, path, def string) string {
+	for _, im := range f.Imports {
+		if im.Path.Value == `"`+path+`"` {
+			if im.Name != nil {
+				return im.Name.Name
+			}
+			return def
+		}
+	}
+	return ""
+}
+
+// seamFile redirects clock readings and package-level random numbers of one
+// file to verifhook. Returns the number of references replaced.
+func seamFile(path string) (int, error) {
+	src, err := os.ReadFile(path)
+	if err != nil {
+		return 0, err
+	}
+	fset, f, err := parse(path, src)
+	if err != nil {
+		return 0, err
+	}
+	timeName := importName(f, "time", "time")
+	randName := importName(f, "math/rand", "rand")
+	rand2Name := importName(f, "math/rand/v2", "rand")
+	if timeName == "" && randName == "" && rand2Name == "" {
+		return 0, nil
+	}
+	type edit struct {
+		from, to int
+		text     string
+	}
+	var edits []edit
+	used := map[string]bool{}
+	ast.Inspect(f, func(n ast.Node) bool {
+		se, ok := n.(*ast.SelectorExpr)
+		if !ok {
+			return true
+		}
+		id, ok := se.X.(*ast.Ident)
+		if !ok || id.Obj != nil { // (a local variable named like the package shadows it)
+			return true
+		}
+		switch {
+		case timeName != "" && id.Name == timeName && seamedTime[se.Sel.Name]:
+			edits = append(edits, edit{fset.Position(se.Pos()).Offset, fset.Position(se.End()).Offset, "verifhook." + se.Sel.Name})
+			used[timeName+".Duration"] = true
+		case randName != "" && id.Name == randName && seamedRand[se.Sel.Name]:
+			edits = append(edits, edit{fset.Position(se.Pos()).Offset, fset.Position(se.End()).Offset, "verifhook.Rand" + se.Sel.Name})
+			used[randName+".Source"] = true
+		case rand2Name != "" && id.Name == rand2Name && seamedRand[se.Sel.Name]:
+			edits = append(edits, edit{fset.Position(se.Pos()).Offset, fset.Position(se.End()).Offset, "verifhook.Rand" + se.Sel.Name})
+			used[rand2Name+".Source"] = true
+		}
+		return true
+	})
+	if len(edits) == 0 {
+		return 0, nil
+	}
+	sort.Slice(edits, func(i, j int) bool { return edits[i].from > edits[j].from })
+	out := append([]byte(nil), src...)
+	for _, e := range edits {
+		out = append(append(append([]byte(nil), out[:e.from]...), e.text...), out[e.to:]...)
+	}
+	// an import may have lost its last use
+	for u := range used {
+		out = append(out, []byte("\n\nvar _ "+u+"\n")...)
+	}
+	pkgEnd := fset.Position(f.Name.End()).Offset
+	var with bytes.Buffer
+	with.Write(out[:pkgEnd])
+	with.WriteString("\n\nimport \"github.com/openacid/low/verifhook\"\n")
+	with.Write(out[pkgEnd:])
+	formatted, err := format.Source(with.Bytes())
+	if err != nil {
+		return 0, fmt.Errorf("gofmt of the seamed file failed: %v", err)
+	}
+	return len(edits), os.WriteFile(path, formatted, 0o644)
+}
+
+// seamAll applies seamFile to every non-test file of every package directory
+// under root (the whole module copy); a package that no longer compiles is
+// restored.
+func seamAll(root string) int {
+	total := 0
+	byDir := map[string][]string{}
+	filepath.Walk(root, func(p string, info os.FileInfo, err error) error {
+		if err != nil {
+			return nil
+		}
+		if info.IsDir() {
+			if b := info.Name(); b == "verifhook" || b == "testdata" || b == "vendor" || (strings.HasPrefix(b, ".") && p != root) {
+				return filepath.SkipDir
+			}
+			return nil
+		}
+		if strings.HasSuffix(p, ".go") && !strings.HasSuffix(p, "_test.go") {
+			byDir[filepath.Dir(p)] = append(byDir[filepath.Dir(p)], p)
+		}
+		return nil
+	})
+	dirs := make([]string, 0, len(byDir))
+	for d := range byDir {
+		dirs = append(dirs, d)
+	}
+	sort.Strings(dirs)
+	for _, d := range dirs {
+		saved := map[string][]byte{}
+		n := 0
+		failed := ""
+		for _, m := range byDir[d] {
+			orig, _ := os.ReadFile(m)
+			k, err := seamFile(m)
+			if err != nil {
+				failed = err.Error()
+				break
+			}
+			if k > 0 {
+				saved[m] = orig
+				n += k
+			}
+		}
+		if n > 0 && failed == "" {
+			rel, _ := filepath.Rel(root, d)
+			cmd := exec.Command("go", "build", "./"+rel+"/")
+			cmd.Dir = root
+			if out, err := cmd.CombinedOutput(); err != nil {
+				failed = "the seamed package does not compile: " + strings.TrimSpace(string(out))
+			}
+		}
+		if failed != "" {
+			for m, orig := range saved {
+				_ = os.WriteFile(m, orig, 0o644)
+			}
+			fmt.Printf("yieldinject: %s: clock/randomness NOT redirected (%s)\n", d, failed)
+			continue
+		}
+		total += n
+	}
+	return total
+}
 
 // shimmed are the blocking primitives of package sync that verifhook has a
 // cooperative stand-in for; unsupported ones keep a package uninstrumented.
@@ -358,7 +674,9 @@ func instrumentFile(path string) (int, error) {
 	// offsets before pkgEnd cannot exist (no statements before the package clause)
 	var withImport bytes.Buffer
 	withImport.Write(text[:pkgEnd])
-	withImport.WriteString("\n\nimport \"github.com/openacid/low/verifhook\"\n")
+	if importName(f, "github.com/openacid/low/verifhook", "verifhook") == "" { // (the seams pass may have added it)
+		withImport.WriteString("\n\nimport \"github.com/openacid/low/verifhook\"\n")
+	}
 	if len(offsets) == 0 && ngo == 0 {
 		// only type names were replaced: nothing may call into the package
 		withImport.WriteString("\nvar _ = verifhook.Yield\n")
@@ -376,8 +694,8 @@ func instrumentFile(path string) (int, error) {
 var nGoStmts, nSyncRefs int
 
 func main() {
-	if len(os.Args) < 3 {
-		fmt.Fprintln(os.Stderr, "usage: yieldinject <copy-root> <pkgdir>...")
+	if len(os.Args) < 2 {
+		fmt.Fprintln(os.Stderr, "usage: yieldinject <copy-root> [<pkgdir>...]   (no package: only the clock/randomness seams)")
 		os.Exit(2)
 	}
 	root := os.Args[1]
@@ -393,6 +711,10 @@ func main() {
 		fmt.Fprintln(os.Stderr, err)
 		os.Exit(1)
 	}
+	// seams first (whole module copy), then — for the listed packages — the
+	// statement-level yields and the cooperative stand-ins
+	nSeams := seamAll(root)
+	fmt.Printf("yieldinject: %d clock readings / random draws redirected to the simulator's seams\n", nSeams)
 	total, files := 0, 0
 	for _, pkg := range os.Args[2:] {
 		matches, _ := filepath.Glob(filepath.Join(root, pkg, "*.go"))
